@@ -34,6 +34,10 @@ func propC07(c *Ctx) {
 	// line numbers are counted in the file's bytes: nothing may rewrite them in place (a normaliser that works on the
 	// slice it was given shifts every later line)
 	c.ruleNormalisers()
+	c.ruleC14NameIsPath() // ... and nothing may change them between the disk and the file object
+	// a location is computed from the file object of THIS build: no package-level cache of files, line tables or
+	// traces may outlive a build
+	c.ruleGlobalState("C07-GLOBAL-STATE")
 }
 
 // ruleNewlineOwner: Line and Column are asked from the dependency (bytes.Bytes.LineAndColumn), which first finds out
@@ -641,42 +645,49 @@ func (c *Ctx) ruleScanTrace() {
 	// directive of another file (still pending when an INCLUDE switched files; its own trace was captured when it was
 	// scanned and is empty for the root file) must not be given the live stack. The deferred attachment therefore has to
 	// be reached only with "the error lies in the current scanner's file" established.
-	for _, st := range f.Decl.Body.List {
-		d, isD := st.(*ast.DeferStmt)
-		if !isD {
-			continue
+	stackAdd := c.P.LookupFunc("scanner", "Stack.AddIncludeTraceToError")
+	nLive := 0
+	for _, hf := range c.libFns() {
+		if hf.Pkg.PkgPath == prog.ModulePath+"/scanner" {
+			continue // the stack's own code
 		}
-		fl, isLit := d.Call.Fun.(*ast.FuncLit)
-		if !isLit {
-			continue
-		}
-		lcf := buildCFG(fl.Body)
-		ast.Inspect(fl.Body, func(n ast.Node) bool {
+		hpk := hf.Pkg
+		inspectWithStack(hf.Decl.Body, func(n ast.Node, stack []ast.Node) bool {
 			call, isC := n.(*ast.CallExpr)
-			if !isC {
+			if !isC || len(call.Args) != 1 {
 				return true
 			}
-			cal := callee(pk, call)
-			if cal == nil || cal.Name() != "AddIncludeTraceToError" {
+			if cal := callee(hpk, call); cal == nil || stackAdd == nil || cal != stackAdd {
 				return true
 			}
+			nLive++
+			// the innermost function body the call lies in
+			body := hf.Decl.Body
+			for i := len(stack) - 1; i >= 0; i-- {
+				if fl, ok := stack[i].(*ast.FuncLit); ok {
+					body = fl.Body
+					break
+				}
+			}
+			lcf := buildCFG(body)
+			errObj := hpk.TypesInfo.Uses[identOf(call.Args[0])]
 			sameFile := func(cond ast.Expr, holds bool) bool {
 				be, ok := ast.Unparen(cond).(*ast.BinaryExpr)
 				if !ok || !((be.Op == token.EQL && holds) || (be.Op == token.NEQ && !holds)) {
 					return false
 				}
-				// one side: <named result>.File ; other side: a File() of the current scanner
+				// one side: <the error>.File ; other side: File() of the current scanner
 				errSide, scanSide := false, false
 				for _, side := range []ast.Expr{be.X, be.Y} {
-					if fld := fieldSel(pk, side); fld != nil && fld.Name() == "File" {
-						if id := identOf(ast.Unparen(side).(*ast.SelectorExpr).X); id != nil && pk.TypesInfo.Uses[id] == named {
+					if fld := fieldSel(hpk, side); fld != nil && fld.Name() == "File" {
+						if id := identOf(ast.Unparen(side).(*ast.SelectorExpr).X); id != nil && errObj != nil && hpk.TypesInfo.Uses[id] == errObj {
 							errSide = true
 						}
 					}
 					if sc, ok := ast.Unparen(side).(*ast.CallExpr); ok {
-						if m := callee(pk, sc); m != nil && m.Name() == "File" {
+						if m := callee(hpk, sc); m != nil && m.Name() == "File" {
 							if sel, ok := ast.Unparen(sc.Fun).(*ast.SelectorExpr); ok {
-								if fld := fieldSel(pk, sel.X); fld != nil && fld.Name() == "scanner" {
+								if fld := fieldSel(hpk, sel.X); fld != nil && fld.Name() == "scanner" {
 									scanSide = true
 								}
 							}
@@ -685,14 +696,19 @@ func (c *Ctx) ruleScanTrace() {
 				}
 				return errSide && scanSide
 			}
+			key := "live stack only for the current file"
+			if hf.Obj != f.Obj {
+				key += " | " + hf.Name()
+			}
 			if lcf.establishedAt(call, sameFile, nil) {
-				r.Ok("C07-SCAN-TRACE", "live stack only for the current file", "the deferred attachment is reached only when the error's file is the current scanner's file", c.pos(call.Pos()))
+				r.Ok("C07-SCAN-TRACE", key, "the live stack is attached only when the error's file is the current scanner's file", c.pos(call.Pos()))
 			} else {
-				r.Bad("C07-SCAN-TRACE", "live stack only for the current file", "the live stack of suspended scanners is attached to whatever error scanProject returns: an error about a directive of the ROOT file that was still pending when an INCLUDE switched files (wrong context, raised at the first keyword of the included file) gets the trace 'root.jst:<line of the INCLUDE>', an include chain that was never followed", c.pos(call.Pos()))
+				r.Bad("C07-SCAN-TRACE", key, "the live stack of suspended scanners is attached to an error without knowing that the error lies in the file being scanned: an error about a directive of the ROOT file that was still pending when an INCLUDE switched files (wrong context, raised at the first keyword of the included file) gets the trace 'root.jst:<line of the INCLUDE>', an include chain that was never followed", c.pos(call.Pos()))
 			}
 			return true
 		})
 	}
+	_ = nLive
 	// no shadowing return that bypasses the named result is possible in Go: `return je` assigns the named result
 	if ok {
 		r.Ok("C07-SCAN-TRACE", "deferred attachment", "defer ... AddIncludeTraceToError(<named result>)", c.pos(f.Decl.Pos()))
